@@ -389,6 +389,21 @@ func (s *seqSt) emitXfer(kind string, v int, pre, post slice, denomOk bool, amou
 			s.out.Violation(fmt.Sprintf("seq=%d op=%d %s panicked: %v", s.seq, s.opNo, kind, err))
 		}
 	}
+	// x/staking's registered invariants on the real state after every successful operation (C02 feeds on this)
+	if cls == kapp.OK {
+		if msg, broken := stakingkeeper.AllInvariants(s.sk())(s.ctx); broken {
+			first := strings.SplitN(strings.TrimSpace(strings.ReplaceAll(msg, "\t", " ")), "\n", 3)
+			what := first[0]
+			if len(first) > 1 {
+				what += " | " + strings.TrimSpace(first[1])
+			}
+			if i := strings.Index(what, ": {"); i > 0 {
+				what = what[:i]
+			}
+			s.out.Note("staking-invariant-broken:" + strings.TrimSpace(first[0]))
+			s.out.Violation(fmt.Sprintf("seq=%d op=%d after %s: x/staking invariant broken: %s", s.seq, s.opNo, kind, what))
+		}
+	}
 	f := append([]string{kind}, pre.pre()...)
 	f = append(f, c.B(denomOk), amount.String(), c.B(aux), "=>", string(cls))
 	f = append(f, post.post()...)
